@@ -23,8 +23,6 @@ Geometry keys used here (other properties can reuse the builder with the same ke
 
 from __future__ import annotations
 
-import math
-
 import numpy as np
 
 from vq.refs import c02_ptycho_sim as sim
